@@ -14,6 +14,8 @@ import (
 	"os"
 	"runtime"
 	"sort"
+	"strconv"
+	"strings"
 	"sync"
 	"time"
 
@@ -143,6 +145,15 @@ func replay(file string) {
 	if rec.Replay.API == "sign:ecdsa-rfc6979" || (rec.Replay.API == "buffers" && rec.Replay.Rep%2 == 1) {
 		btc.EcdsaSignWithRFC6979 = true
 	}
+	if rec.Replay.API == "racepass" {
+		r := ev.Start("C03", "exploration")
+		info := runRacePass(r)
+		fmt.Fprintf(ev.Out, "replay: free-running race-detector pass: %v, findings: %d\n", info, r.Violations())
+		if r.Violations() > 0 {
+			os.Exit(1)
+		}
+		os.Exit(0)
+	}
 	v := evaluate(rec.Replay)
 	fmt.Fprintf(ev.Out, "replay: api=%s family=%s class=%s\n", rec.Replay.API, rec.Replay.Family, v.class)
 	if v.key == "" {
@@ -154,6 +165,14 @@ func replay(file string) {
 }
 
 func main() {
+	for _, a := range os.Args[1:] {
+		if strings.HasPrefix(a, "--racepass=") {
+			// the binary built with -race: free-running concurrent pass, no verdict protocol
+			n, _ := strconv.Atoi(strings.TrimPrefix(a, "--racepass="))
+			racePassMain(n)
+			return
+		}
+	}
 	r := ev.Start("C03", "exploration")
 	if dn, err := os.OpenFile("/dev/null", os.O_WRONLY, 0); err == nil {
 		os.Stdout = dn
@@ -243,6 +262,12 @@ func main() {
 	run(sDet)
 	btc.EcdsaSignWithRFC6979 = false
 	fmt.Fprintf(os.Stderr, "signer families done (%.1fs)\n", time.Since(t0).Seconds())
+
+	// free-running pass of the entry points under the race detector (second binary)
+	tr := time.Now()
+	raceInfo := runRacePass(r)
+	raceInfo["wall_s"] = float64(int(time.Since(tr).Seconds()*10)) / 10
+	fmt.Fprintf(os.Stderr, "race pass done: %v (%.1fs)\n", raceInfo, time.Since(t0).Seconds())
 
 	// deterministic reporting: for every key the lowest-index failing case,
 	// re-evaluated once more before it is believed
